@@ -81,6 +81,13 @@ func runMany(t *testing.T) {
 		}
 		n = len(seedList)
 	}
+	// warm-up: the first run of a process is slow (page faults, lazy initialisation), and
+	// slow segments are where the Go runtime's time-based preemption can reorder goroutines
+	{
+		wc := h.Generate(prop, 424242, tier)
+		wc.Harness, wc.Property, wc.Tier, wc.Seed = hn, prop, tier, 424242
+		_ = RunCase(t, wc, false)
+	}
 	for i := 0; i < n; i++ {
 		if deadline > 0 && time.Now().Unix() >= deadline {
 			break
@@ -126,7 +133,9 @@ func runMany(t *testing.T) {
 					res.Harness = "shrunk case did not reproduce " + sg + " : " + final.Harness + " got " + string(vb) + fmt.Sprintf(" ops=%d shrinkruns=%d", len(small.Ops), runs)
 				}
 			}
-			res.Trace = nil
+			if os.Getenv("VERIF_TRACE") != "2" {
+				res.Trace = nil
+			}
 			b, _ := json.Marshal(res)
 			out.Write(b)
 			out.WriteByte('\n')
